@@ -343,6 +343,7 @@ async fn run_line(
     }
     drop(c);
     log(json!({"t":"resp","seq":seq(),"step":step,"stage":stage,"user":user,
+               "verb":line.trim().split_whitespace().next().unwrap_or("").to_uppercase(),
                "body":String::from_utf8_lossy(&out)}));
 }
 
@@ -406,6 +407,7 @@ fn main() {
         }
     }
     seams::init(&root, faults);
+    seams::load_mtimes(&root);
     let end = life["end"].clone();
     if let Some(k) = end["crash_before_io"].as_u64() {
         seams::CRASH_BEFORE_IO.store(k, Ordering::SeqCst);
@@ -460,6 +462,17 @@ fn main() {
         .enable_all()
         .start_paused(true)
         .max_blocking_threads(1)
+        // tasks woken from the blocking thread land in the remote queue; by default it is only looked at every
+        // N ticks, and the tick count depends on spurious (real-time) wake-ups of the parked runtime thread
+        .global_queue_interval(1)
+        .on_thread_start(|| {
+            let me = seams::gettid();
+            if me != seams::RT_TID.load(Ordering::Relaxed) {
+                seams::BLOCKING_TID.store(me, Ordering::SeqCst);
+                seams::BLOCKING_IDLE.store(false, Ordering::SeqCst);
+            }
+        })
+        .on_before_task_poll(|_| seams::runtime_poll_boundary())
         .on_thread_park(|| {
             if seams::gettid() == seams::RT_TID.load(Ordering::Relaxed) {
                 seams::RT_PARKED.store(true, Ordering::SeqCst);
@@ -661,7 +674,7 @@ fn main() {
                            "io":seams::IO_COUNT.load(Ordering::SeqCst),"sim_ms":t0.elapsed().as_millis() as u64,
                            "clock_reads":seams::CLOCK_READS.load(Ordering::Relaxed),
                            "getrandom_calls":seams::GETRANDOM_CALLS.load(Ordering::Relaxed),
-                           "park_waits":seams::PARK_WAITS.load(Ordering::Relaxed),"park_timeouts":seams::PARK_TIMEOUTS.load(Ordering::Relaxed)}));
+                           "park_waits":seams::PARK_WAITS.load(Ordering::Relaxed),"statx_patched":seams::STATX_PATCHED.load(Ordering::Relaxed),"boundary_waits":seams::BOUNDARY_WAITS.load(Ordering::Relaxed),"park_timeouts":seams::PARK_TIMEOUTS.load(Ordering::Relaxed)}));
                 seams::die(0);
             }
             "stop" => {
